@@ -12,8 +12,12 @@ case = {"clock": "int"|"float"|"dur"|"durmin", "strategy": "log"|"warn"|"pause",
         "payloads": [{"c": int|None, "w": hex|"nan"|"str"|"notuple"|"len3", "v": hex|"nan"|"str",
                       "as_int": bool}, ...],
         "stats": [{"kind": "counter"|"tally"|"weighted"|"persistent", "key": int, "chans": [..],
-                   "lsub": [event index, ...], "extra": bool, "react": [None|payload idx, ...]}, ...]}
-Times are integers in quarter time units.
+                   "lsub": [event index, ...], "extra": bool, "react": [None|payload idx, ...]}, ...],
+        "hooks": [{"ev": "warmup"|"endrepl"|["chan", c], "pos": k, "removes": index of a hook}, ...]}
+Times are integers in quarter time units.  A hook is a one-shot listener of the model: subscribed in
+construct_model to the simulator's WARMUP / END_REPLICATION event (or to a channel of the model's producer)
+right before statistic number pos is created (pos = number of statistics: after all of them); inside its
+first notification it unsubscribes the hook `removes` (itself, or another one) from that hook's event.
 """
 import io
 import json
@@ -257,6 +261,19 @@ def run_case(case, name):
                     else:
                         st.register(float(sim.simulator_time), num_of(p["v"]))
 
+    class Hook(EventListener):
+        """one-shot listener of the model: unsubscribes a hook (itself or another one) inside its first notification"""
+
+        def __init__(self, producer, et):
+            self.producer, self.et, self.target, self.done = producer, et, None, False
+
+        def notify(self, event):
+            if not self.done:
+                self.done = True
+                t = self.target
+                if t is not None:
+                    t.producer.remove_listener(t.et, t)
+
     def issue(c):
         try:
             k = c[0]
@@ -304,7 +321,23 @@ def run_case(case, name):
             self.producer = EventProducer()
             self.stat_objs = []
             self.subs = []
+            hdecls = case.get("hooks") or []
+            hooks = [None] * len(hdecls)
+
+            def add_hooks(pos):
+                for hi, h in enumerate(hdecls):
+                    if h["pos"] == pos:
+                        if h["ev"] == "warmup":
+                            hk = Hook(sim, ReplicationInterface.WARMUP_EVENT)
+                        elif h["ev"] == "endrepl":
+                            hk = Hook(sim, ReplicationInterface.END_REPLICATION_EVENT)
+                        else:
+                            hk = Hook(self.producer, CH_ET[h["ev"][1]])
+                        hooks[hi] = hk
+                        hk.producer.add_listener(hk.et, hk)
+
             for sid, d in enumerate(sdecls):
+                add_hooks(sid)
                 kind = d["kind"]
                 cls = {"counter": ST.SimCounter, "tally": ST.SimTally, "weighted": ST.SimWeightedTally,
                        "persistent": ST.SimPersistent}[kind]
@@ -325,6 +358,10 @@ def run_case(case, name):
                             o.add_listener(getattr(StatEvents, nm), sub)
                 self.stat_objs.append(o)
                 self.subs.append(sub)
+            add_hooks(len(sdecls))
+            for hi, h in enumerate(hdecls):
+                if hooks[hi] is not None and 0 <= h["removes"] < len(hooks):
+                    hooks[hi].target = hooks[h["removes"]]
             self.interp(0)
 
         def handle(self, h, k, prio):
